@@ -39,7 +39,7 @@ struct C04 : Harness {
                         int len = *gkeylen(bs, 2, 10);
                         p.push_back(mkop(opn(kind, "set_tweaked_key")).set("s", 0).set("key", reuse_or(keys, (size_t)len, 35)).set("len", len).set("ko", *goffset()));
                         keyed = true;
-                    } else if (w <= 5) p.push_back(gen_tweak(kind, bs, tweaks));
+                    } else if (w <= 5) { if (*chance(1) && *chance(30)) gen_storm(p, kind, 0, true); else p.push_back(gen_tweak(kind, bs, tweaks)); }
                     else {
                         Op e = mkop(opn(kind, w <= 7 ? "enc" : "dec"));
                         e.set("s", 0).set("in", *gbytes(bs)).set("io", *goffset()).set("oo", *goffset());
@@ -60,7 +60,10 @@ struct C04 : Harness {
                     if (r > 0 && *chance(35)) { int l2 = *chance(60) ? len : *gkeylen(bs, 2, 10); p.push_back(mkop(opn(kind, "set_tweaked_key")).set("s", 0).set("key", reuse_or(keys, (size_t)l2, 60)).set("len", l2)); }
                     int nt = *irange(0, 3);
                     for (int i = 0; i < nt; ++i) p.push_back(gen_tweak(kind, bs, tweaks));
-                    p.push_back(gen_set_counter(kind, 0));
+                    if (*chance(1) && *chance(50)) gen_storm(p, kind, 0, true);
+                    // (usually an explicit counter; sometimes none, so that the data call continues the stream the way the
+                    // documentation of the CTR tweak API describes: left-over keystream of the old tweak must not be used)
+                    if (r == 0 || *chance(70)) p.push_back(gen_set_counter(kind, 0));
                     int n = *rc::gen::element(bs, 3 * bs + 1, 4 * bs, 8 * bs + 3, 16 * bs);
                     p.push_back(mkop(opn(kind, "encrypt")).set("s", 0).set("in", *gdata(n)));
                 }
